@@ -343,6 +343,7 @@ func (s *Sem) holds(k Conj, p Prim, depth int, resolve func(ssa.Value) ssa.Value
 						dd = dd.With(e)
 					}
 				}
+				dd = s.saturateBool(dd)
 				if !s.holds(dd, p, depth+1, inner) {
 					ok = false
 					break
@@ -357,6 +358,32 @@ func (s *Sem) holds(k Conj, p Prim, depth int, resolve func(ssa.Value) ssa.Value
 		}
 	}
 	return false
+}
+
+// saturateBool: where a merged boolean is known (true or false) on this path and the path also says which
+// operand it is (the provenance fact phi == operand), the operand has that truth value too - and when the operand
+// is a comparison, so have its comparison facts.
+func (s *Sem) saturateBool(k Conj) Conj {
+	out := k
+	for _, f := range k.List() {
+		if f.Op != token.ILLEGAL {
+			continue
+		}
+		for _, g := range k.List() {
+			if g.Op != token.EQL || g.X != f.X || g.Y == nil {
+				continue
+			}
+			if _, isC := g.Y.(*ssa.Const); isC {
+				continue
+			}
+			for _, nf := range s.C.F.CondFacts(g.Y, f.Pol) {
+				if !contradicts(out, nf) {
+					out = out.With(nf)
+				}
+			}
+		}
+	}
+	return out
 }
 
 // TrueFacts returns k extended with what follows from the boolean value v being true on this path: the
